@@ -250,10 +250,35 @@ def operations(kind, maxbatch):
     return ops
 
 
+class BrokenSubject:
+    """stands for an object that could not even be driven through its history (a cell that is not an entry, an operation that
+    raises): check() reports it as a discrepancy instead of letting the exception escape as a harness error"""
+
+    def __init__(self, what):
+        self.what = what
+        self.entry = None
+
+    def check(self):
+        return self.what
+
+    def real_state(self):
+        return ("broken", self.what)
+
+    def ref_state(self):
+        return ("broken",)
+
+    def cell(self, addr=None):
+        raise RuntimeError(self.what)
+
+
 def build(kind, merge, retention, init, history):
-    s = Subject(kind, merge, retention, init)
-    for op in history:
-        s.apply(op)
+    try:
+        s = Subject(kind, merge, retention, init)
+        for op in history:
+            s.apply(op)
+        s.check()
+    except (AttributeError, TypeError, KeyError, IndexError) as exc:
+        return BrokenSubject(f"{kind} ({merge}/{retention}) could not be driven through {history}: {type(exc).__name__}: {exc}")
     return s
 
 
@@ -291,7 +316,15 @@ def plan(tier, seed):
 
 
 def run_shard(shard, tier, seed):
-    return {"bfs": run_bfs, "combine": run_combine, "stateless": run_stateless}[shard["mode"]](shard)
+    try:
+        return {"bfs": run_bfs, "combine": run_combine, "stateless": run_stateless}[shard["mode"]](shard)
+    except (AttributeError, TypeError, KeyError, IndexError, RuntimeError) as exc:
+        # on the unchanged package every object of this check can be built, indexed, updated and read; an exception of these
+        # kinds while driving one means that a table or entry no longer behaves as one (e.g. a cell that is not an entry)
+        import traceback as _tb
+        return {"evaluations": 1, "nontrivial": 0, "samples": [], "violations_total": 1,
+                "violations": [viol({"kind": "shard", "shard": shard}, "undrivable",
+                                    f"{type(exc).__name__}: {exc}\n{_tb.format_exc(limit=4)}")]}
 
 
 def run_bfs(shard):
@@ -482,14 +515,17 @@ def run_stateless(shard):
             hist = [["update", b] for b in sp]
             for kind in kinds:
                 n += 1
-                s = Subject(kind, merge, ret)
                 bad = None
-                for i, op in enumerate(hist):
-                    s.apply(op)
-                    bad = s.check()
-                    if bad:
-                        hist = hist[: i + 1]
-                        break
+                try:
+                    s = Subject(kind, merge, ret)
+                    for i, op in enumerate(hist):
+                        s.apply(op)
+                        bad = s.check()
+                        if bad:
+                            hist = hist[: i + 1]
+                            break
+                except (AttributeError, TypeError, KeyError, IndexError) as exc:
+                    bad = f"{kind} could not be driven through its history: {type(exc).__name__}: {exc}"
                 if bad:
                     if len(viols) < 8:
                         viols.append(viol(describe(kind, merge, ret, None, hist), "invariant", bad))
@@ -509,14 +545,20 @@ def replay(v):
     case = v["case"]
     kind = case.get("kind")
     if kind == "history":
-        s = Subject(case["object"], case["merge"], case["retention"],
-                    tuple(case["init"]) if case.get("init") else None)
+        try:
+            s = Subject(case["object"], case["merge"], case["retention"],
+                        tuple(case["init"]) if case.get("init") else None)
+        except (AttributeError, TypeError, KeyError, IndexError) as exc:
+            return {"violated": True, "detail": f"object could not be built: {type(exc).__name__}: {exc}"}
         d = s.check()
         if d:
             return {"violated": True, "detail": f"initial state: {d}"}
         for i, op in enumerate(case["history"]):
-            s.apply(op)
-            d = s.check()
+            try:
+                s.apply(op)
+                d = s.check()
+            except (AttributeError, TypeError, KeyError, IndexError) as exc:
+                d = f"{type(exc).__name__}: {exc}"
             if d:
                 return {"violated": True, "detail": f"after step {i} {op}: {d}"}
         return {"violated": False}
@@ -536,4 +578,7 @@ def replay(v):
             if numkey(r.value()) != opt or r.infos():
                 return {"violated": True, "detail": f"{r.value()!r} {r.infos()!r}"}
         return {"violated": False}
+    if kind == "shard":
+        res = run_shard(case["shard"], "quick", 0)
+        return {"violated": bool(res["violations"]), "detail": res["violations"][0]["detail"] if res["violations"] else None}
     raise ValueError(f"unknown case kind {kind}")
